@@ -27,9 +27,9 @@ def run(F, tier, res):
     es = N['event_sites']
     res.rule('C01.ORD-W', len(es.get('DIRECT_W', [])), 12, 'direct-write sites (function, callee) reached from consume; each checked in every abstract state reaching it: output_buffer and subhunk buffers empty',
              samples=es.get('DIRECT_W', [])[:4])
-    res.rule('C01.FLUSH', len(es.get('FLUSH_W', [])), 2, 'flush sites (writer call carrying output_buffer, followed by clear)', samples=es.get('FLUSH_W', [])[:2])
+    res.rule('C01.FLUSH', len(es.get('FLUSH_W', [])), 1, 'flush sites (writer call carrying output_buffer, followed by clear)', samples=es.get('FLUSH_W', [])[:2])
     res.rule('C01.ORD-B', len(es.get('APPEND_OB', [])), 4, 'append sites on output_buffer; subhunk buffers must be empty or painted', samples=es.get('APPEND_OB', [])[:3])
-    res.rule('C01.PAINT/DROP', len(es.get('PAINT_LB', [])) + len(es.get('CLEAR_LB', [])) + len(es.get('CLEAR_MB', [])) + len(es.get('PAINT_MB', [])), 4,
+    res.rule('C01.PAINT/DROP', len(es.get('PAINT_LB', [])) + len(es.get('CLEAR_LB', [])) + len(es.get('CLEAR_MB', [])) + len(es.get('PAINT_MB', [])), 2,
              'paint / clear sites of the subhunk and merge-conflict buffers; every clear preceded by a paint since the last push')
     res.rule('C01.ONCE', N['summary']['once_checked'], 500, 'exits Ok(true) of the hunk-line handler (%s): exactly one consume event on each' % N['summary']['hunk_line_handlers'])
     he = N['handler_exits']
